@@ -105,3 +105,86 @@ class DepOrderSpec:
 
 def factory(n):
     return DepOrderSpec(n)
+
+
+class CompleteSpec(DepOrderSpec):
+    """completeness of the call graph: the body `n0(n1)  let .. = n2` has three identifier expressions - a callee, an argument, a plain
+    reference.  Which of them resolve to a (distinct) top-level function is chosen by the solver; resolve_name answers accordingly for the
+    resolver of that very expression.  Obligation: the edge list is the self edge plus one edge per identifier that resolves to a function -
+    whatever syntactic position it is in (two functions that reach each other only through a function VALUE are one inference group)."""
+
+    def __init__(self):
+        DepOrderSpec.__init__(self, 3)
+
+    def make_interp(self):
+        it = DepOrderSpec.make_interp(self)
+        spec = self
+        E = lambda variant, fields: Agg('enum', 'def::module::Expr', variant, fields)
+        # 0: n0, 1: n1, 2: n2, 3: n0(n1), 4: literal
+        self.exprs[3:] = [E('Call', [scopes.idx(0), VecV([tup(none(), scopes.idx(1))])]), E('Literal', [IntV(0, 16, 0)])]
+        self.isfn = [z3.Bool('resolves_to_function_%d' % i) for i in range(3)]
+        self.choice = {}
+
+        def resolver_for_expr(it_, c, a):
+            eid = models.deref(a[2])
+            i = eid.fields[0].v if isinstance(eid, Agg) else eid.v
+            return Agg('struct', 'Resolver', None, [Opaque(('scopes-of-expr', i)), Opaque('module_scope')])
+
+        def resolve_name(it_, c, a):
+            r = models.deref(a[0]); nm = models.deref(a[1])
+            nm = nm.fields[0].s if isinstance(nm, Agg) else nm.s
+            tag = r.fields[0].tag if isinstance(r, Agg) and isinstance(r.fields[0], Opaque) else None
+            i = int(nm[1:])
+            if not (isinstance(tag, tuple) and tag[1] == i):
+                spec.foreign_scope = True          # the identifier is looked up in the scope of another expression: answered as a local
+                return some(Agg('enum', 'ResolveResult', 'Local', [LazyV('local')]))
+            if i not in spec.choice:
+                spec.choice[i] = it_.choose([(spec.isfn[i], True), (z3.Not(spec.isfn[i]), False)])
+            if spec.choice[i]:
+                return some(Agg('enum', 'ResolveResult', 'Function', [Agg('struct', 'Function', None, [Agg('struct', 'FunctionId', None, [Agg('struct', 'InternId', None, [IntV(100 + i, 32, 0)])])])]))
+            return some(Agg('enum', 'ResolveResult', 'Local', [LazyV('local')]))
+        it.models['resolver::resolver_for_expr'] = resolver_for_expr
+        it.models['Resolver::resolve_name'] = resolve_name
+        return it
+
+    def run_path(self, it):
+        b = W.crates['ide']['def::scope::dependency_order_query']
+        self.edges = None; self.choice = {}; self.foreign_scope = False
+        try:
+            it.run_body(b, [LazyV('db'), Agg('struct', 'FileId', None, [IntV(0, 32, 0)])])
+        except Pruned:
+            if self.edges is None:
+                raise
+        if self.edges is None:
+            return {'cls': 'violation', 'ok': False, 'why': ['engine: the edge list never reached the graph construction'], 'cex': {}}
+        got = set()
+        for e in self.edges:
+            a, b2 = e.fields
+            if not (isinstance(a, IntV) and isinstance(b2, IntV)) or a.sym() or b2.sym():
+                return {'cls': 'violation', 'ok': False, 'why': ['engine: symbolic edge'], 'cex': {}}
+            got.add((a.v, b2.v))
+        bad = []
+        role = {0: 'the callee n0 of `n0(n1)`', 1: 'the argument n1 of `n0(n1)`', 2: 'the plain reference n2'}
+        # identifiers the code never asked about: the solver may still make them functions
+        for i in range(3):
+            if i in self.choice:
+                if self.choice[i] and (5, 100 + i) not in got:
+                    bad.append('C09: %s resolves to a top-level function but the call graph has no edge to it' % role[i])
+                if not self.choice[i] and (5, 100 + i) in got:
+                    bad.append('C09: %s does not resolve to a function, yet the call graph has an edge for it' % role[i])
+            else:
+                r, _ = it.check(self.isfn[i])
+                if r == z3.sat:
+                    bad.append('C09: %s is never resolved when the call graph is built: if it names a top-level function (a function passed or bound as a VALUE), the two functions are not put '
+                               'into one inference group although they may be mutually recursive' % role[i])
+        if (5, 5) not in got:
+            bad.append('C09: the declared function has no self edge')
+        rec = {'cls': 'edges:%d' % (len(got) - 1), 'ok': True, 'sample': {'functions_among_identifiers': sorted(i for i, v in self.choice.items() if v), 'edges': sorted(got)}}
+        if bad:
+            rec.update({'cls': 'violation', 'ok': False, 'why': sorted(set(bad))[:4], 'cex': {'identifiers': 3, 'resolve_to_function': sorted(i for i, v in self.choice.items() if v)}})
+        return rec
+
+
+def complete_factory():
+    return CompleteSpec()
+
